@@ -57,13 +57,16 @@ func (s *grpcServer) GetActionResult(ctx context.Context,
 		return nil, errNilActionDigest
 	}
 
-	if s.mangleACKeys {
-		req.ActionDigest.Hash = cache.TransformActionCacheKey(req.ActionDigest.Hash, req.InstanceName, s.accessLogger)
-	}
-
+	// Validate the client-provided hash before mangling it with the instance
+	// name: otherwise any string is accepted (the mangled key is always a
+	// valid hash) and (hash+"x", "y") collides with (hash, "xy").
 	err := s.validateHash(req.ActionDigest.Hash, req.ActionDigest.SizeBytes, logPrefix)
 	if err != nil {
 		return nil, err
+	}
+
+	if s.mangleACKeys {
+		req.ActionDigest.Hash = cache.TransformActionCacheKey(req.ActionDigest.Hash, req.InstanceName, s.accessLogger)
 	}
 
 	// Clients provides hash and size of the Action, but not size of the ActionResult
@@ -233,13 +236,16 @@ func (s *grpcServer) UpdateActionResult(ctx context.Context,
 		return nil, errNilActionDigest
 	}
 
-	if s.mangleACKeys {
-		req.ActionDigest.Hash = cache.TransformActionCacheKey(req.ActionDigest.Hash, req.InstanceName, s.accessLogger)
-	}
-
+	// Validate the client-provided hash before mangling it with the instance
+	// name: otherwise any string is accepted (the mangled key is always a
+	// valid hash) and (hash+"x", "y") collides with (hash, "xy").
 	err := s.validateHash(req.ActionDigest.Hash, req.ActionDigest.SizeBytes, logPrefix)
 	if err != nil {
 		return nil, err
+	}
+
+	if s.mangleACKeys {
+		req.ActionDigest.Hash = cache.TransformActionCacheKey(req.ActionDigest.Hash, req.InstanceName, s.accessLogger)
 	}
 
 	// Validate the ActionResult's immediate fields, but don't check for dependent blobs.
